@@ -52,11 +52,19 @@ func runC03(c *Ctx, r *Rec) {
 		stmt ast.Stmt
 		args []ast.Expr
 	}
-	effectsOf := func(fd *ast.FuncDecl) []eff {
+	// effects of fd on the two structures.  The effects of unexported helpers (methods of the
+	// catalog, methods of a named type of the key index such as insert/drop) are attributed to
+	// the statement of fd that calls them, with the helper's parameters replaced by the arguments.
+	var effectsIn func(root *ast.FuncDecl, fd *ast.FuncDecl, isMap func(e ast.Expr) bool, anchor ast.Node, subst map[types.Object]ast.Expr, depth int) []eff
+	opaqueCalls := map[*ast.FuncDecl]bool{} // functions whose effects may hide in calls that are not followed
+	effectsIn = func(root *ast.FuncDecl, fd *ast.FuncDecl, isMap func(e ast.Expr) bool, anchor ast.Node, subst map[types.Object]ast.Expr, depth int) []eff {
 		var out []eff
 		var stmtOf func(n ast.Node) ast.Stmt
 		stmtOf = func(n ast.Node) ast.Stmt {
-			chain := pathTo(fd.Body, n)
+			if anchor != nil {
+				n = anchor
+			}
+			chain := pathTo(root.Body, n)
 			for i := len(chain) - 1; i >= 0; i-- {
 				if s, ok := chain[i].(ast.Stmt); ok {
 					if _, isBlock := s.(*ast.BlockStmt); !isBlock {
@@ -66,28 +74,62 @@ func runC03(c *Ctx, r *Rec) {
 			}
 			return nil
 		}
+		at := func(n ast.Node) ast.Node {
+			if anchor != nil {
+				return anchor
+			}
+			return n
+		}
+		sub := func(es []ast.Expr) []ast.Expr {
+			var out []ast.Expr
+			for _, e := range es {
+				if o := identObj(info, e); o != nil && subst != nil {
+					if r, ok := subst[o]; ok {
+						out = append(out, r)
+						continue
+					}
+				}
+				// P.GetKey() / P.GetValue() of a substituted parameter P
+				if rx, mname, call, ok := methodCall(ast.Unparen(e)); ok && len(call.Args) == 0 && subst != nil {
+					if o := identObj(info, rx); o != nil {
+						if r, ok := subst[o]; ok {
+							out = append(out, &ast.CallExpr{Fun: &ast.SelectorExpr{X: r, Sel: ast.NewIdent(mname)}})
+							continue
+						}
+					}
+				}
+				out = append(out, e)
+			}
+			return out
+		}
+		isList := func(e ast.Expr) bool { return selectorField(info, e) == listF }
 		ast.Inspect(fd.Body, func(x ast.Node) bool {
+			if _, isLit := x.(*ast.FuncLit); isLit {
+				opaqueCalls[root] = true
+				return false
+			}
 			switch s := x.(type) {
 			case *ast.AssignStmt:
 				for i, l := range s.Lhs {
-					if ix, ok := ast.Unparen(l).(*ast.IndexExpr); ok && selectorField(info, ix.X) == mapF && len(s.Lhs) == len(s.Rhs) {
-						out = append(out, eff{"map-insert", s, s, []ast.Expr{ix.Index, s.Rhs[i]}})
+					if ix, ok := ast.Unparen(l).(*ast.IndexExpr); ok && isMap(ix.X) && len(s.Lhs) == len(s.Rhs) {
+						out = append(out, eff{"map-insert", at(s), stmtOf(s), sub([]ast.Expr{ix.Index, s.Rhs[i]})})
 					}
-					if selectorField(info, l) == mapF {
-						out = append(out, eff{"map-reset", s, s, nil})
+					if isMap(l) {
+						out = append(out, eff{"map-reset", at(s), stmtOf(s), nil})
 					}
-					if selectorField(info, l) == listF {
-						out = append(out, eff{"list-reset", s, s, nil})
+					if isList(l) {
+						out = append(out, eff{"list-reset", at(s), stmtOf(s), nil})
 					}
 				}
 			case *ast.CallExpr:
-				if isBuiltinCall(info, s, "delete") && len(s.Args) == 2 && selectorField(info, s.Args[0]) == mapF {
-					out = append(out, eff{"map-delete", s, stmtOf(s), []ast.Expr{s.Args[1]}})
+				if isBuiltinCall(info, s, "delete") && len(s.Args) == 2 && isMap(s.Args[0]) {
+					out = append(out, eff{"map-delete", at(s), stmtOf(s), sub([]ast.Expr{s.Args[1]})})
 				}
-				if isBuiltinCall(info, s, "clear") && len(s.Args) == 1 && selectorField(info, s.Args[0]) == mapF {
-					out = append(out, eff{"map-reset", s, stmtOf(s), nil})
+				if isBuiltinCall(info, s, "clear") && len(s.Args) == 1 && isMap(s.Args[0]) {
+					out = append(out, eff{"map-reset", at(s), stmtOf(s), nil})
 				}
-				if rx, mname, call, ok := methodCall(s); ok && selectorField(info, rx) == listF && listMutators[mname] {
+				rx, mname, call, isM := methodCall(s)
+				if isM && isList(rx) && listMutators[mname] {
 					kind := "list-other:" + mname
 					switch mname {
 					case "AppendValue":
@@ -99,12 +141,47 @@ func runC03(c *Ctx, r *Rec) {
 					case "SortValues", "SortValuesWithRanker", "ReverseValues", "ShuffleValues":
 						kind = "list-reorder"
 					}
-					out = append(out, eff{kind, s, stmtOf(s), call.Args})
+					out = append(out, eff{kind, at(s), stmtOf(s), sub(call.Args)})
+					return true
 				}
+				// unexported helpers: of the key index's own type, or of the catalog
+				cf := calleeOf(info, s)
+				if cf == nil || cf.Exported() || depth >= 3 {
+					return true
+				}
+				hd := c.declOf(cf)
+				if hd == nil || hd.Body == nil || c.infoFor(hd) != info {
+					return true
+				}
+				hsub := map[types.Object]ast.Expr{}
+				hps := paramObjs(info, hd)
+				for i, a := range s.Args {
+					if i < len(hps) {
+						as := sub([]ast.Expr{a})
+						hsub[hps[i]] = as[0]
+					}
+				}
+				hIsMap := isMap
+				if isM && isMap(rx) {
+					hr := recvObj(info, hd)
+					hIsMap = func(e ast.Expr) bool { return hr != nil && identObj(info, e) == hr }
+				} else if isM {
+					if ro := recvObj(info, fd); ro == nil || identObj(info, rx) != ro {
+						return true // a method of something else
+					}
+				}
+				anc := anchor
+				if anc == nil {
+					anc = s
+				}
+				out = append(out, effectsIn(root, hd, hIsMap, anc, hsub, depth+1)...)
 			}
 			return true
 		})
 		return out
+	}
+	effectsOf := func(fd *ast.FuncDecl) []eff {
+		return effectsIn(fd, fd, func(e ast.Expr) bool { return selectorField(info, e) == mapF }, nil, nil, 0)
 	}
 	sameRegion := func(fd *ast.FuncDecl, a, b ast.Stmt) bool {
 		// both statements are members of the same statement list, with no return/panic/branch between them
@@ -150,6 +227,9 @@ func runC03(c *Ctx, r *Rec) {
 	checkReceiverWrites(c, r, "D1-receiver-writes-persist", cat)
 	for _, name := range sortedKeys(ms) {
 		fd := ms[name]
+		if !ast.IsExported(name) {
+			continue // the effects of helpers are judged in the exported methods that call them
+		}
 		effs := effectsOf(fd)
 		if len(effs) == 0 {
 			continue
@@ -242,30 +322,63 @@ func runC03(c *Ctx, r *Rec) {
 			for i, ins := range count["map-insert"] {
 				app := count["list-append"][i]
 				ao, bo := identObj(info, ins.args[1]), identObj(info, app.args[0])
-				if ao == nil || ao != bo {
+				sameExpr := ast.Unparen(ins.args[1]) == ast.Unparen(app.args[0]) // one argument of a helper that does both
+				if !sameExpr && (ao == nil || ao != bo) {
 					bad = "the association stored under the key is not the association appended to the list"
 					break
 				}
-				// built from the method's key and value:  X = Association.Make(key, value)
-				init := resolveInit(info, fd, ins.args[1])
-				_, mname, call, ok := methodCall(init)
-				if !ok || mname != "Make" || len(call.Args) != 2 || len(params) < 2 || !isObj(info, call.Args[0], params[0]) || !isObj(info, call.Args[1], params[1]) {
-					// the variable may be assigned (not declared) in the branch
-					found := false
-					ast.Inspect(fd.Body, func(x ast.Node) bool {
-						if as, ok := x.(*ast.AssignStmt); ok && len(as.Lhs) == 1 && len(as.Rhs) == 1 && identObj(info, as.Lhs[0]) == ao {
-							if _, mn, cl, ok := methodCall(ast.Unparen(as.Rhs[0])); ok && mn == "Make" && len(cl.Args) == 2 && len(params) >= 2 && isObj(info, cl.Args[0], params[0]) && isObj(info, cl.Args[1], params[1]) {
-								found = true
+				// built from the method's key and value:  X = Association.Make(key, value), or any
+				// constructor-like call that is handed both; evidence of a fault is a constructing
+				// call that is handed only one of them, or neither
+				var ctorCalls []*ast.CallExpr
+				if cl, ok := ast.Unparen(resolveInit(info, fd, ins.args[1])).(*ast.CallExpr); ok {
+					ctorCalls = append(ctorCalls, cl)
+				}
+				ast.Inspect(fd.Body, func(x ast.Node) bool {
+					if as, ok := x.(*ast.AssignStmt); ok && len(as.Lhs) == 1 && len(as.Rhs) == 1 && identObj(info, as.Lhs[0]) == ao {
+						if cl, ok := ast.Unparen(as.Rhs[0]).(*ast.CallExpr); ok {
+							ctorCalls = append(ctorCalls, cl)
+						}
+					}
+					return true
+				})
+				if len(params) >= 2 && len(ctorCalls) > 0 {
+					good := false
+					for _, cl := range ctorCalls {
+						hasK, hasV := false, false
+						for _, a := range cl.Args {
+							if isObj(info, a, params[0]) {
+								hasK = true
+							}
+							if isObj(info, a, params[1]) {
+								hasV = true
 							}
 						}
-						return true
-					})
-					if !found {
+						if hasK && hasV {
+							good = true
+						}
+					}
+					if !good {
 						bad = "the new association is not built from the method's own key and value"
 						break
 					}
 				}
-				if len(params) == 0 || !isObj(info, ins.args[0], params[0]) {
+				keyOK := len(params) > 0 && isObj(info, ins.args[0], params[0])
+				if rx, mname, _, ok := methodCall(ast.Unparen(ins.args[0])); ok && mname == "GetKey" && len(params) > 0 {
+					// the key of the very association that is stored, which was built from the key parameter
+					src := ast.Unparen(rx)
+					if id, isId := src.(*ast.Ident); isId {
+						src = ast.Unparen(resolveInit(info, fd, id))
+					}
+					if cl, ok := src.(*ast.CallExpr); ok && (ast.Unparen(rx) == ast.Unparen(ins.args[1]) || identObj(info, rx) == ao) {
+						for _, a := range cl.Args {
+							if isObj(info, a, params[0]) {
+								keyOK = true
+							}
+						}
+					}
+				}
+				if !keyOK {
 					bad = "the association is indexed under something other than the method's key"
 				}
 			}
@@ -275,47 +388,147 @@ func runC03(c *Ctx, r *Rec) {
 				}
 			}
 		}
+		if bad != "" && opaqueCalls[fd] {
+			r.skip("D1-coupled-updates", construct, c.pos(fd.Pos()), "the method works through function literals whose effects are not followed ("+bad+")")
+			continue
+		}
 		r.check(bad == "", "D1-coupled-updates", construct, c.pos(fd.Pos()), fmt.Sprintf("%d effect(s), pairwise coupled in one control region", len(effs)), bad)
 	}
-	r.floor("D1-coupled-updates", 1)
+	r.floorSoft("D1-coupled-updates", "collection.CatalogLike/updates", "no exported method changes the key index or the list in a way the rule can see")
 
-	// in-place update of SetValue goes to the association found under the same key
-	if fd := ms["SetValue"]; fd != nil {
-		params := paramObjs(info, fd)
-		bad := "no in-place update of an existing association"
-		ast.Inspect(fd.Body, func(x ast.Node) bool {
-			if rx, mname, call, ok := methodCall(x); ok && mname == "SetValue" && len(call.Args) == 1 && len(params) == 2 {
-				if ao := identObj(info, rx); ao != nil {
-					// defined as  a, exists := v.keys_[key]
-					ast.Inspect(fd.Body, func(y ast.Node) bool {
-						if lhs, rhs, ok := multiDef(y); ok && len(lhs) >= 1 && identObj(info, lhs[0]) == ao {
-							if ix, ok := ast.Unparen(rhs).(*ast.IndexExpr); ok && selectorField(info, ix.X) == mapF && isObj(info, ix.Index, params[0]) {
-								if isObj(info, call.Args[0], params[1]) {
-									bad = ""
-								} else {
-									bad = "the in-place update does not store the method's value parameter"
-								}
-							}
-						}
-						return true
-					})
+	// mapLookup: e reads the key index - v.keys_[k] itself, or a call of an unexported helper
+	// (of the index's type or of the catalog) that returns what it reads from the index under
+	// one of its parameters.  Returns the key expression in terms of the caller.
+	var mapLookup func(e ast.Expr, depth int) (ast.Expr, bool)
+	mapLookup = func(e ast.Expr, depth int) (ast.Expr, bool) {
+		e = ast.Unparen(e)
+		if ix, ok := e.(*ast.IndexExpr); ok && selectorField(info, ix.X) == mapF {
+			return ix.Index, true
+		}
+		call, ok := e.(*ast.CallExpr)
+		if !ok || depth > 2 {
+			return nil, false
+		}
+		cf := calleeOf(info, call)
+		if cf == nil || cf.Exported() {
+			return nil, false
+		}
+		hd := c.declOf(cf)
+		if hd == nil || hd.Body == nil || c.infoFor(hd) != info {
+			return nil, false
+		}
+		hps := paramObjs(info, hd)
+		hr := recvObj(info, hd)
+		rx, _, _, isM := methodCall(call)
+		onIndex := isM && selectorField(info, rx) == mapF
+		var key ast.Expr
+		ast.Inspect(hd.Body, func(x ast.Node) bool {
+			ix, ok := x.(*ast.IndexExpr)
+			if !ok {
+				return true
+			}
+			isIdx := selectorField(info, ix.X) == mapF || (onIndex && hr != nil && identObj(info, ix.X) == hr)
+			if !isIdx {
+				return true
+			}
+			for pi, p := range hps {
+				if isObj(info, ix.Index, p) && pi < len(call.Args) {
+					key = call.Args[pi]
 				}
 			}
 			return true
 		})
-		r.check(bad == "", "D1-update-in-place", c.fdName(fd), c.pos(fd.Pos()), "an existing key updates the association found under that key with the new value (position unchanged)", bad)
+		if key == nil {
+			// one level further: the helper itself calls a lookup helper
+			ast.Inspect(hd.Body, func(x ast.Node) bool {
+				if inner, ok := x.(*ast.CallExpr); ok && key == nil {
+					if k, ok := mapLookup(inner, depth+1); ok {
+						for pi, p := range hps {
+							if isObj(info, k, p) && pi < len(call.Args) {
+								key = call.Args[pi]
+							}
+						}
+					}
+				}
+				return true
+			})
+		}
+		return key, key != nil
+	}
+	callsHelpers := func(fd *ast.FuncDecl) bool {
+		found := false
+		ast.Inspect(fd.Body, func(x ast.Node) bool {
+			if _, isLit := x.(*ast.FuncLit); isLit {
+				found = true
+			}
+			if call, ok := x.(*ast.CallExpr); ok {
+				if cf := calleeOf(info, call); cf != nil && !cf.Exported() && c.declOf(cf) != nil {
+					found = true
+				}
+			}
+			return true
+		})
+		return found
+	}
+	// in-place update of SetValue goes to the association found under the same key
+	if fd := ms["SetValue"]; fd != nil {
+		params := paramObjs(info, fd)
+		bad := "no in-place update of an existing association"
+		if callsHelpers(fd) {
+			bad = "skip: no in-place update of an association that was looked up in this method (it may be made by a helper)"
+		}
+		ast.Inspect(fd.Body, func(x ast.Node) bool {
+			if rx, mname, call, ok := methodCall(x); ok && mname == "SetValue" && len(call.Args) == 1 && len(params) == 2 {
+				// the association updated: a local defined from a lookup, or the lookup itself
+				srcs := []ast.Expr{ast.Unparen(rx)}
+				if ao := identObj(info, rx); ao != nil {
+					srcs = nil
+					ast.Inspect(fd.Body, func(y ast.Node) bool {
+						if lhs, rhs, ok := multiDef(y); ok && len(lhs) >= 1 && identObj(info, lhs[0]) == ao {
+							srcs = append(srcs, ast.Unparen(rhs))
+						}
+						return true
+					})
+				}
+				for _, src := range srcs {
+					key, ok := mapLookup(src, 0)
+					if !ok {
+						continue
+					}
+					switch {
+					case !isObj(info, key, params[0]):
+						bad = "the association updated in place is looked up under something other than the method's key"
+					case !isObj(info, call.Args[0], params[1]):
+						bad = "the in-place update does not store the method's value parameter"
+					default:
+						bad = ""
+					}
+				}
+			}
+			return true
+		})
+		r.verdict("D1-update-in-place", c.fdName(fd), c.pos(fd.Pos()), "an existing key updates the association found under that key with the new value (position unchanged)", bad)
 	}
 	// GetValue reads the association under the key
 	if fd := ms["GetValue"]; fd != nil {
 		params := paramObjs(info, fd)
-		okRead := false
+		bad := "GetValue does not look its key parameter up in the key index"
+		if callsHelpers(fd) {
+			bad = "skip: no lookup in the key index is made in this method itself"
+		}
 		ast.Inspect(fd.Body, func(x ast.Node) bool {
-			if ix, ok := x.(*ast.IndexExpr); ok && selectorField(info, ix.X) == mapF && len(params) == 1 && isObj(info, ix.Index, params[0]) {
-				okRead = true
+			if e, ok := x.(ast.Expr); ok && len(params) == 1 {
+				if key, ok := mapLookup(e, 0); ok {
+					if isObj(info, key, params[0]) {
+						bad = ""
+					} else if bad != "" {
+						bad = "GetValue looks something other than its key parameter up in the key index"
+					}
+				}
 			}
 			return true
 		})
-		r.check(okRead, "D1-update-in-place", c.fdName(fd), c.pos(fd.Pos()), "reads the key index under its key parameter", "GetValue does not look its key parameter up in the key index")
+		r.verdict("D1-update-in-place", c.fdName(fd), c.pos(fd.Pos()), "reads the key index under its key parameter", bad)
 	}
 
 	// ---- D2 identity lookup
@@ -370,7 +583,7 @@ func runC03(c *Ctx, r *Rec) {
 			bad = "skip: RemoveValue does not call the association list's RemoveValue: the identity rule is bound to the list-backed design"
 		case usesSearch:
 			bad = "the list position is found with the list's collator-based search (structural equality): with pointer keys a != b, *a == *b and equal values, RemoveValue(b) removes a's list entry and b's index entry"
-		case len(scope) == 1 && func() bool {
+		case len(scope) == 1 && !hasFuncLit(fd.Body) && func() bool {
 			deps := depClosure(info, fd)
 			params := paramObjs(info, fd)
 			idxObj := identObj(info, rem.Args[0])
@@ -416,5 +629,16 @@ func runC03(c *Ctx, r *Rec) {
 			checkLoops(c, r, "D3-loop-progress", m[name], nil)
 		}
 	}
-	r.floor("D3-loop-progress", 1)
+	r.floorSoft("D3-loop-progress", "loops", "no loop is left in the methods this rule looks at")
+}
+
+func hasFuncLit(n ast.Node) bool {
+	found := false
+	ast.Inspect(n, func(x ast.Node) bool {
+		if _, ok := x.(*ast.FuncLit); ok {
+			found = true
+		}
+		return !found
+	})
+	return found
 }
